@@ -53,6 +53,7 @@ static inline int VI(const VT & v) {return KI(v);}
 // Keys of the model are 1..K; the real key is model key + KOFF (order preserving).  KOFF = 1621770656 makes model key 2 the int whose
 // default hash code (CalculateHashCode of its 4 bytes) is exactly 0xFFFFFFFF = MUSCLE_HASHTABLE_INVALID_HASH_CODE, the table's guard value.
 static int KOFF = 0;
+static uint32 g_alias = 0;
 static inline int RK(long m) {return (m > 0) ? (int)(m+KOFF) : (int) m;}
 static inline long MK(int k) {return (k > 0) ? ((long) k)-KOFF : (long) k;}
 #ifdef HT_CANARY
@@ -128,16 +129,19 @@ template<class TableT, class HashF> struct Rig
    TableT * tab[2]; bool blk[2]; It * it[MAXIT]; bool itBwd[MAXIT];
    uint32 P, slack; TableT * tmpl; std::string err;
    bool autoOn;    // SetAutoSortEnabled state of the table object tab[0] (sorting classes)
+   // MoveToTable() moves the value out of the source entry BEFORE it removes the entry, so the copy an iterator keeps of that entry holds a moved-from value
+   // (non-trivial value types only).  The header is silent: either value is accepted; See() reports the value the entry had and counts the occurrences.
+   int plKey[MAXIT], plVal[MAXIT]; long plundered;
    uint32 alias, calls;   // alias != 0: key / value arguments are, whenever possible, references INTO the table's own storage or into an iterator
 
-   Rig(uint32 p, uint32 s) : P(p), slack(s), tmpl(NULL), autoOn(true), alias(0), calls(0) {tab[0] = tab[1] = NULL; blk[0] = blk[1] = false; for (int i=0; i<MAXIT; i++) {it[i] = NULL; itBwd[i] = false;}}
+   Rig(uint32 p, uint32 s) : P(p), slack(s), tmpl(NULL), autoOn(true), alias(g_alias), calls(g_alias), plundered(0) {for (int i=0; i<MAXIT; i++) plKey[i] = plVal[i] = 0; tab[0] = tab[1] = NULL; blk[0] = blk[1] = false; for (int i=0; i<MAXIT; i++) {it[i] = NULL; itBwd[i] = false;}}
    void Build()
    {
       tmpl = new TableT;
       if ((P > 0)||(slack > 0)) (void) tmpl->EnsureSize(P+slack, true);
       for (uint32 i=0; i<P; i++) (void) tmpl->Put(MkK(((int) i)-((int) P)), MkV(((int) i)-((int) P)));
    }
-   void Drop() {for (int i=0; i<MAXIT; i++) {delete it[i]; it[i] = NULL; itBwd[i] = false;} delete tab[0]; delete tab[1]; tab[0] = tab[1] = NULL;}
+   void Drop() {for (int i=0; i<MAXIT; i++) {delete it[i]; it[i] = NULL; itBwd[i] = false; plKey[i] = 0;} delete tab[0]; delete tab[1]; tab[0] = tab[1] = NULL;}
    void Reset() {Drop(); tab[0] = new TableT(*tmpl); tab[1] = new TableT; blk[0] = (P > 0); blk[1] = false; err.clear(); autoOn = true;}
    uint32 P0() const {return blk[0] ? P : 0;}
 
@@ -150,6 +154,7 @@ template<class TableT, class HashF> struct Rig
          case O_PutAtPosition: case O_MoveToPosition: return !(B0 && (b == 0));
          case O_ItRet: case O_ItFlip: return !(B0 || B1);
          case O_Clear: case O_Destroy: case O_AssignFrom: return !B0;
+         case O_Self: return !((a == 3) && B0);
          case O_AssignTo: return !B1;
          case O_PutAll: return !(B1 && !B0);
          case O_RemoveAll: return !(B0 && B1);
@@ -192,8 +197,10 @@ template<class TableT, class HashF> struct Rig
          case O_PutOrRemove: return t.PutOrRemove(ka, (b == 0) ? ownVb : ValArg(t, ownVb)).IsOK() ? 1 : NA;
          case O_PutAtFront: return t.PutAtFront(ka, ValArg(t, ownVb)).IsOK() ? 1 : NA;
          case O_PutAtBack: return t.PutAtBack(ka, ValArg(t, ownVb)).IsOK() ? 1 : NA;
-         case O_PutBefore: return t.PutBefore(ka, KeyArg(t, ownB), ValArg(t, ownVc)).IsOK() ? 1 : NA;
-         case O_PutBehind: return t.PutBehind(ka, KeyArg(t, ownB), ValArg(t, ownVc)).IsOK() ? 1 : NA;
+         // known finding HputBeforeAlias: the reference key is read after the Put may have reallocated the array - an aliasing reference key is kept out of
+         // the generated calls (directed case: `ht directed putbefore-alias`)
+         case O_PutBefore: return t.PutBefore(ka, ownB, ValArg(t, ownVc)).IsOK() ? 1 : NA;
+         case O_PutBehind: return t.PutBehind(ka, ownB, ValArg(t, ownVc)).IsOK() ? 1 : NA;
          case O_PutAtPosition: return t.PutAtPosition(ka, IsBig(b) ? Big(b) : (uint32)(p0+b), ValArg(t, ownVc)).IsOK() ? 1 : NA;
          case O_GetAndMoveToFront: {VT v = VT(); const status_t r = t.GetAndMoveToFront(ka, v); return r.IsOK() ? VI(v) : ((r == B_DATA_NOT_FOUND) ? 0 : NA);}
          case O_GetAndMoveToBack:  {VT v = VT(); const status_t r = t.GetAndMoveToBack(ka, v);  return r.IsOK() ? VI(v) : ((r == B_DATA_NOT_FOUND) ? 0 : NA);}
@@ -217,13 +224,15 @@ template<class TableT, class HashF> struct Rig
          case O_AssignFrom: t = o; blk[0] = blk[1]; return 0;
          case O_AssignTo: o = t; blk[1] = blk[0]; return 0;
          case O_PutAll: return t.Put(o).IsOK() ? 1 : NA;
-         case O_MoveToTable: return St(t.MoveToTable(ka, o));
+         case O_MoveToTable: {const VT * pv = t.Get(ownA); const int v0 = pv ? VI(*pv) : 0; const status_t r = t.MoveToTable(ka, o);
+                              if ((r.IsOK())&&(v0 != 0)) for (int i=0; i<MAXIT; i++) if ((it[i])&&(it[i]->HasData())&&(it[i]->GetKey() == ownA)&&(VI(it[i]->GetValue()) == 0)) {plKey[i] = KI(ownA); plVal[i] = v0; plundered++;}
+                              return St(r);}
          case O_CopyToTable: return St(t.CopyToTable(ka, o));
          case O_Self: switch(a) {        // the table is its own argument
             case 0: t = *tab[0]; return 0;
             case 1: t.SwapContents(*tab[0]); return 0;
             case 2: return t.Put(*tab[0]).IsOK() ? 1 : NA;
-            case 3: return (long) t.Remove(*tab[0]) - p0;
+            case 3: {const long r = ((long) t.Remove(*tab[0]))-p0; blk[0] = false; return r;}
             case 4: return (long) t.Intersect(*tab[0]);
             case 5: return t.IsEqualTo(*tab[0], b != 0) ? 1 : 0;
             default: return St(t.MoveToTable(KeyArg(t, ownB), *tab[0])); }
@@ -259,11 +268,11 @@ template<class TableT, class HashF> struct Rig
                         if ((b == 0)&&(blk[0])) for (uint32 i=0; i<P; i++) {if ((!n->HasData())||(KI(n->GetKey()) != ((int) i)-((int) P))) {err = "forward iterator does not walk the prefill block in order"; break;} (*n)++;}
                         return 0;}
          case O_ItNewAt: it[a-1] = new It(t, KeyArg(t, ownB), ((c != 0) ? HTIT_FLAG_BACKWARDS : 0)|JunkFlags(a)); itBwd[a-1] = (c != 0); return 0;
-         case O_ItAdv: (*it[a-1])++; return 0;
-         case O_ItRet: (*it[a-1])--; itBwd[a-1] = true; return 0;
+         case O_ItAdv: (*it[a-1])++; plKey[a-1] = 0; return 0;
+         case O_ItRet: (*it[a-1])--; itBwd[a-1] = true; plKey[a-1] = 0; return 0;
          case O_ItFlip: it[a-1]->SetBackwards(!it[a-1]->IsBackwards()); itBwd[a-1] = true; return 0;
-         case O_ItDel: delete it[a-1]; it[a-1] = NULL; itBwd[a-1] = false; return 0;
-         case O_ItCopy: it[b-1] = new It(*it[a-1]); itBwd[b-1] = itBwd[a-1]; return 0;
+         case O_ItDel: delete it[a-1]; it[a-1] = NULL; itBwd[a-1] = false; plKey[a-1] = 0; return 0;
+         case O_ItCopy: it[b-1] = new It(*it[a-1]); itBwd[b-1] = itBwd[a-1]; plKey[b-1] = plKey[a-1]; plVal[b-1] = plVal[a-1]; return 0;
       }
       return NA;
    }
@@ -300,6 +309,7 @@ template<class TableT, class HashF> struct Rig
       ItObs o; if (it[i] == NULL) return o;
       if (!it[i]->HasData()) {o.h = 0; return o;}
       o.h = 1; o.k = (int) MK(KI(it[i]->GetKey())); o.v = VI(it[i]->GetValue());
+      if ((plKey[i] != 0)&&(KI(it[i]->GetKey()) == plKey[i])&&(o.v == 0)) o.v = plVal[i];
       if ((o.k < 0)&&(itBwd[i])) {o.h = 0; o.k = o.v = 0;}   // parked inside the prefill block = past the head of the model's table
       return o;
    }
@@ -316,6 +326,7 @@ static bool Reordered(const KV & a, const KV & b)
    for (size_t i=0; i<b.size(); i++) if (HasKey(a, b[i].first)) y.push_back(b[i].first);
    return x != y;
 }
+static KV Without(const KV & t, int k) {KV r; for (size_t i=0; i<t.size(); i++) if (t[i].first != k) r.push_back(t[i]); return r;}
 static KV ToKV(const mj::Value & k, const mj::Value & v) {KV r; for (size_t i=0; i<k.size(); i++) r.push_back(std::make_pair((int) k[i].i(), (int) v[i].i())); return r;}
 static std::string KVStr(const KV & t) {std::string s = "["; char b[40]; for (size_t i=0; i<t.size(); i++) {snprintf(b, sizeof(b), "%s%d:%d", i ? " " : "", t[i].first, t[i].second); s += b;} return s+"]";}
 static mj::Value KeysJ(const KV & t, bool vals) {mj::Value a = mj::Value::Arr(); for (size_t i=0; i<t.size(); i++) a.push(mj::Value::Int(vals ? t[i].second : t[i].first)); return a;}
@@ -326,25 +337,26 @@ struct ItMon {
    ItMon() : live(false), re(false), fin(false) {}
 };
 // Clauses: (1) what an iterator shows is an entry of its table or the copy it kept of the entry it was on (for the calls that empty a
-// table: or a copy of an entry that call removed); (2) ++ lands on an existing entry; (3) a traversal that no reordering operation crossed
-// visits no entry twice and, when it ends, has visited every entry that was ahead of its start and present throughout.
+// table: or a copy of an entry that call removed); (2) ++ lands on an existing entry; (3) a traversal visits no entry twice and, when it
+// ends, has visited every entry that was ahead of its start and present throughout - except the entries that a call relinked itself (a
+// moved entry counts as a new one) and the traversals crossed by a call that changed the relative order of the OTHER entries (a sort).
 struct Monitor {
    ItMon m[MAXIT]; int tab[MAXIT]; KV before[3];
    Monitor() {for (int i=0; i<MAXIT; i++) tab[i] = 0;}
-   // after[1], after[2]: contents of the two tables now; obs: what the iterators show now; mv: a reordering operation (may have) relinked an entry
-   void Step(int op, long a, long b, long c, const KV * after, const ItObs * obs, int nIt, bool mv, std::vector<std::string> & viol)
+   // after[1], after[2]: contents of the two tables now; obs: what the iterators show now; mk: key of the entry the call (may have) relinked, 0 = none
+   void Step(int op, long a, long b, long c, const KV * after, const ItObs * obs, int nIt, long mk, std::vector<std::string> & viol)
    {
       char buf[400];
       for (int i=0; i<nIt; i++) {
          const ItObs & real = obs[i]; ItMon & mm = m[i]; const int tb = tab[i];
          if (op < O_Get) {
             if ((mm.live)&&(tb != 0)) {
-               const bool detach = (((op == O_Clear)||(op == O_Destroy)||(op == O_AssignFrom))&&(tb == 1))||((op == O_AssignTo)&&(tb == 2));
+               const bool detach = (((op == O_Clear)||(op == O_Destroy)||(op == O_AssignFrom)||((op == O_Self)&&(a == 3)))&&(tb == 1))||((op == O_AssignTo)&&(tb == 2));
                const int tc = (op == O_Swap) ? (3-tb) : tb;     // where the contents the iterator was registered with are now
                if (detach) {mm.must.clear(); mm.seen.clear(); tab[i] = 0;}
                else {
-                  for (size_t k=0; k<before[tb].size(); k++) if (!HasKey(after[tc], before[tb][k].first)) {mm.must.erase(before[tb][k].first); mm.seen.erase(before[tb][k].first);}
-                  if ((mv)||(Reordered(before[tb], after[tc]))) mm.re = true;
+                  for (size_t k=0; k<before[tb].size(); k++) if ((!HasKey(after[tc], before[tb][k].first))||(before[tb][k].first == (int) mk)) {mm.must.erase(before[tb][k].first); mm.seen.erase(before[tb][k].first);}
+                  if (Reordered(Without(before[tb], (int) mk), Without(after[tc], (int) mk))) mm.re = true;
                   tab[i] = tc;
                }
                if ((real.h == 0)&&(mm.prev.h == 1)&&(!mm.re)) {   // the traversal ended without a ++: nothing that is still ahead may be lost
@@ -416,7 +428,7 @@ template<class TableT, class HashF> static int Replay(const char * inFile, const
          const mj::Value & eit = s["it"]; const bool mv = s["mv"].truthy(); bool exact = true; std::string exactMsg;
          const int nIt = (int) muscleMin((size_t) MAXIT, eit.size()); ItObs obs[MAXIT];
          for (int i=0; i<nIt; i++) obs[i] = R.See(i);
-         mon.Step(op, a, b, c, after, obs, nIt, mv, viol); itChecks += nIt;
+         mon.Step(op, a, b, c, after, obs, nIt, mv ? a : 0, viol); itChecks += nIt;
          for (int i=0; i<nIt; i++) {
             ItObs exp; exp.h = (int) eit[i]["h"].i(); exp.k = (int) eit[i]["k"].i(); exp.v = (int) eit[i]["v"].i();
             if ((!(obs[i] == exp))&&(exactMsg.empty())) {exact = false; snprintf(buf, sizeof(buf), "after %s(%ld,%ld,%ld) iterator %d shows (has=%d key=%d value=%d), specification expects (has=%d key=%d value=%d)", OPN[op], a, b, c, i+1, obs[i].h, obs[i].k, obs[i].v, exp.h, exp.k, exp.v); exactMsg = buf;}
@@ -438,7 +450,7 @@ template<class TableT, class HashF> static int Replay(const char * inFile, const
    mj::Value sum = mj::Value::Obj();
    sum.set("summary", mj::Value::Bool(true)).set("behaviours", mj::Value::Int(nb)).set("followed", mj::Value::Int(followed)).set("cut_not_applicable", mj::Value::Int(cut)).set("drifted", mj::Value::Int(drifted))
       .set("violated", mj::Value::Int(violated)).set("steps", mj::Value::Int(steps)).set("iterator_checks", mj::Value::Int(itChecks)).set("distinct_calls", mj::Value::Int(distinctOps))
-      .set("prefill", mj::Value::Int(P)).set("slack", mj::Value::Int(slack)).set("min_slots", mj::Value::Int(minSlots)).set("max_slots", mj::Value::Int(maxSlots));
+      .set("prefill", mj::Value::Int(P)).set("slack", mj::Value::Int(slack)).set("min_slots", mj::Value::Int(minSlots)).set("max_slots", mj::Value::Int(maxSlots)).set("iterator_copies_with_moved_out_value", mj::Value::Int(R.plundered));
    fprintf(out, "%s\n", mj::ToString(sum).c_str()); fclose(out); fclose(in);
    printf("%s\n", mj::ToString(sum).c_str());
    return 0;
@@ -448,18 +460,18 @@ template<class TableT, class HashF> static int Replay(const char * inFile, const
 // may this call unlink and relink an entry (a reordering operation in the sense of the property)?  Conservative, by kind of call.
 static bool RelinkKind(int op, bool sorted)
 {
-   if (((op >= O_PutAtFront)&&(op <= O_GetAndMoveToBack))||((op >= O_MoveToFront)&&(op <= O_Reposition))) return true;
-   return (sorted)&&((op <= O_PutOrRemove)||(op == O_PutAll)||(op == O_MoveToTable)||(op == O_AssignFrom)||(op == O_AssignTo)||(op == O_SetAutoSort));
+   if (((op >= O_PutAtFront)&&(op <= O_GetAndMoveToBack))||((op >= O_MoveToFront)&&(op <= O_MoveToPosition))||(op == O_Reposition)) return true;
+   return (sorted)&&((op <= O_PutOrRemove)||(op == O_MoveToTable)||(op == O_CopyToTable));     // the sorting classes reposition the entry that is put
 }
 
 static const int PLAIN_OPS[] = {O_Put, O_Put, O_Put, O_PutPrev, O_PutIfAbsent, O_GetOrPut, O_PutOrRemove, O_PutAtFront, O_PutAtBack, O_PutBefore, O_PutBehind, O_PutAtPosition,
       O_GetAndMoveToFront, O_GetAndMoveToBack, O_Remove, O_Remove, O_RemoveGet, O_RemoveFirst, O_RemoveLast, O_MoveToFront, O_MoveToBack, O_MoveToBefore, O_MoveToBehind, O_MoveToPosition,
-      O_SortByKey, O_SortByValue, O_SortSelf, O_Swap, O_Clear, O_Destroy, O_AssignFrom, O_AssignTo, O_PutAll, O_MoveToTable, O_RemoveAll, O_Intersect, O_EnsureSize, O_ShrinkToFit, O_EnsureCanPut,
+      O_SortByKey, O_SortByValue, O_SortSelf, O_Swap, O_Clear, O_Destroy, O_AssignFrom, O_AssignTo, O_PutAll, O_MoveToTable, O_RemoveAll, O_Intersect, O_EnsureSize, O_ShrinkToFit, O_EnsureCanPut, O_CopyToTable, O_Self,
       O_Get, O_IndexOfKey, O_IndexOfValue, O_GetKeyAt, O_GetValueAt, O_GetFirstKey, O_GetLastKey, O_GetKeyBefore, O_GetKeyAfter, O_ContainsValue, O_NumItems, O_IsEqualTo,
       O_ItNew, O_ItNew, O_ItNewAt, O_ItAdv, O_ItAdv, O_ItAdv, O_ItAdv, O_ItRet, O_ItFlip, O_ItDel, O_ItCopy};
 static const int SORTED_OPS[] = {O_Put, O_Put, O_Put, O_Put, O_PutPrev, O_PutIfAbsent, O_GetOrPut, O_PutOrRemove, O_Remove, O_Remove, O_RemoveGet, O_RemoveFirst, O_RemoveLast,
       O_SortSelf, O_Reposition, O_Swap, O_Clear, O_Destroy, O_AssignFrom, O_AssignTo, O_PutAll, O_MoveToTable, O_RemoveAll, O_Intersect, O_EnsureSize, O_EnsureSize, O_ShrinkToFit, O_ShrinkToFit,
-      O_EnsureCanPut, O_SetAutoSort, O_SetAutoSort, O_MoveToFront, O_MoveToBack, O_MoveToBefore, O_MoveToBehind, O_MoveToPosition, O_PutAtFront,
+      O_EnsureCanPut, O_CopyToTable, O_Self, O_SetAutoSort, O_SetAutoSort, O_MoveToFront, O_MoveToBack, O_MoveToBefore, O_MoveToBehind, O_MoveToPosition, O_PutAtFront,
       O_Get, O_IndexOfKey, O_IndexOfValue, O_GetKeyAt, O_GetValueAt, O_GetFirstKey, O_GetLastKey, O_GetKeyBefore, O_GetKeyAfter, O_ContainsValue, O_NumItems, O_IsEqualTo,
       O_ItNew, O_ItNew, O_ItNewAt, O_ItAdv, O_ItAdv, O_ItAdv, O_ItAdv, O_ItRet, O_ItFlip, O_ItDel, O_ItCopy};
 
@@ -495,13 +507,14 @@ template<class TableT, class HashF> static int Random(const char * outFile, cons
                case O_PutOrRemove: a = k1; b = (gen()%3 == 0) ? 0 : v; break;
                case O_PutBefore: case O_PutBehind: a = k1; b = k2; c = v; break;
                case O_PutAtPosition: a = k1; b = (gen()%5 == 0) ? -1-(long)(gen()%4) : pos; c = v; break;
-               case O_GetAndMoveToFront: case O_GetAndMoveToBack: case O_Remove: case O_RemoveGet: case O_MoveToFront: case O_MoveToBack: case O_MoveToTable: case O_Reposition:
+               case O_GetAndMoveToFront: case O_GetAndMoveToBack: case O_Remove: case O_RemoveGet: case O_MoveToFront: case O_MoveToBack: case O_MoveToTable: case O_CopyToTable: case O_Reposition:
                case O_Get: case O_IndexOfKey: case O_GetKeyBefore: case O_GetKeyAfter: a = k1; break;
                case O_MoveToBefore: case O_MoveToBehind: a = k1; b = k2; break;
                case O_MoveToPosition: a = k1; b = (gen()%5 == 0) ? -1-(long)(gen()%4) : pos; break;
                case O_EnsureSize: a = (gen()%5 == 0) ? -1-(long)(gen()%4) : (long)(gen()%(K+2)); b = bit; break;
                case O_EnsureCanPut: a = (gen()%4 == 0) ? -1-(long)(gen()%4) : (long)(gen()%3); break;
                case O_SetAutoSort: a = bit; b = (long)(gen()%2); break;
+               case O_Self: a = (long)(gen()%7); b = (a == 6) ? k2 : bit; break;
                case O_ShrinkToFit: a = (gen()%5 == 0) ? -1-(long)(gen()%4) : bit; break;
                case O_IndexOfValue: a = v; b = bit; break;
                case O_GetKeyAt: case O_GetValueAt: a = (gen()%4 == 0) ? -1-(long)(gen()%4) : pos; break;
@@ -547,7 +560,7 @@ template<class TableT, class HashF> static int Random(const char * outFile, cons
          ItObs obs[MAXIT]; for (int i=0; i<nIt; i++) obs[i] = R.See(i);
          if (monOn) {
             KV aft[3]; aft[1] = t1; aft[2] = t2; std::vector<std::string> mviol;
-            mon.Step(op, a, b, c, aft, obs, nIt, RelinkKind(op, sorted), mviol);
+            mon.Step(op, a, b, c, aft, obs, nIt, RelinkKind(op, sorted) ? a : 0, mviol);
             if (!mviol.empty()) {
                violated++; monOn = false; char buf[200]; snprintf(buf, sizeof(buf), "run %u call %u: ", run, n);
                mj::Value rec = mj::Value::Obj(); rec.set("seed", mj::Value::Int(seed)).set("run", mj::Value::Int(run)).set("call", mj::Value::Int(n)); mj::Value va = mj::Value::Arr(); va.push(mj::Value::Str(std::string(buf)+mviol[0])); rec.set("violations", va);
@@ -569,7 +582,7 @@ template<class TableT, class HashF> static int Random(const char * outFile, cons
    int distinctOps = 0; for (int i=0; i<NUM_OPS; i++) if (opCount[i] > 0) distinctOps++;
    mj::Value sum = mj::Value::Obj();
    sum.set("summary", mj::Value::Bool(true)).set("runs", mj::Value::Int(runs)).set("calls", mj::Value::Int(calls)).set("lines", mj::Value::Int(lines)).set("violated", mj::Value::Int(violated)).set("distinct_calls", mj::Value::Int(distinctOps))
-      .set("max_items", mj::Value::Int(maxItems)).set("min_slots", mj::Value::Int(minSlots)).set("max_slots", mj::Value::Int(maxSlots)).set("live_iterator_observations", mj::Value::Int(itLive));
+      .set("max_items", mj::Value::Int(maxItems)).set("min_slots", mj::Value::Int(minSlots)).set("max_slots", mj::Value::Int(maxSlots)).set("live_iterator_observations", mj::Value::Int(itLive)).set("iterator_copies_with_moved_out_value", mj::Value::Int(R.plundered));
    fprintf(out, "%s\n", mj::ToString(sum).c_str()); fclose(out); fclose(tf);
    printf("%s\n", mj::ToString(sum).c_str());
    return 0;
@@ -599,8 +612,17 @@ template<class HashF> static int RunRandom(int cls, char ** argv, uint32 seed, u
 int main(int argc, char ** argv)
 {
    CompleteSetupSystem css;
+   if ((argc >= 3)&&(!strcmp(argv[1], "directed"))&&(!strcmp(argv[2], "putbefore-alias"))) {
+      // known finding HputBeforeAlias: PutBefore / PutBehind read their reference key after the Put may have reallocated the array
+      Hashtable<KT,VT,DefHash> t; for (int i=1; i<=7; i++) (void) t.Put(MkK(i), MkV(i*10));      // default capacity: full
+      const KT & first = *t.GetFirstKey(); const KT nk = MkK(100); const VT nv = MkV(1000);
+      const status_t r = ((argc > 3)&&(atoi(argv[3]) != 0)) ? t.PutBehind(nk, first, nv) : t.PutBefore(nk, first, nv);
+      const int idx = t.IndexOfKey(nk), want = ((argc > 3)&&(atoi(argv[3]) != 0)) ? 1 : 0;
+      printf("{\"directed\":\"putbefore-alias\",\"ok\":%s,\"index\":%d,\"documented_index\":%d}\n", r.IsOK() ? "true" : "false", idx, want);
+      return ((r.IsOK())&&(idx == want)&&(t.GetNumItems() == 8)) ? 0 : 1;
+   }
    if ((argc >= 7)&&(!strcmp(argv[1], "replay"))) {
-      const int h = atoi(argv[4]); const uint32 P = (uint32) atol(argv[5]), slack = (uint32) atol(argv[6]); const char * pf = (argc > 7) ? argv[7] : NULL; const int cls = (argc > 8) ? atoi(argv[8]) : 0;
+      const int h = atoi(argv[4]); const uint32 P = (uint32) atol(argv[5]), slack = (uint32) atol(argv[6]); const char * pf = (argc > 7) ? argv[7] : NULL; const int cls = (argc > 8) ? atoi(argv[8]) : 0; g_alias = (argc > 9) ? (uint32) atol(argv[9]) : 0;
       if (h >= 4) KOFF = 1621770656;
       switch(h%4) {
          case 0: return RunReplay<DefHash>(cls, argv, P, slack, pf);
@@ -611,7 +633,7 @@ int main(int argc, char ** argv)
    }
    if ((argc >= 14)&&(!strcmp(argv[1], "random"))) {
       const uint32 seed = (uint32) atol(argv[4]), runs = (uint32) atol(argv[5]), nops = (uint32) atol(argv[6]); const int cls = atoi(argv[7]); const int h = atoi(argv[8]);
-      const uint32 P = (uint32) atol(argv[9]), slack = (uint32) atol(argv[10]); const int K = atoi(argv[11]), V = atoi(argv[12]), nIt = muscleMin(atoi(argv[13]), MAXIT);
+      const uint32 P = (uint32) atol(argv[9]), slack = (uint32) atol(argv[10]); const int K = atoi(argv[11]), V = atoi(argv[12]), nIt = muscleMin(atoi(argv[13]), MAXIT); g_alias = (argc > 14) ? (uint32) atol(argv[14]) : 0;
       if (h >= 4) KOFF = 1621770656;
       switch(h%4) {
          case 0: return RunRandom<DefHash>(cls, argv, seed, runs, nops, P, slack, K, V, nIt);
@@ -620,6 +642,6 @@ int main(int argc, char ** argv)
          case 3: return (cls == 0) ? RunRandom<ModHash>(0, argv, seed, runs, nops, P, slack, K, V, nIt) : 2;
       }
    }
-   fprintf(stderr, "usage: ht replay <behaviours> <report> <hash> <prefill> <slack> [progress [class]] | ht random <report> <trace> <seed> <runs> <ops> <class> <hash> <prefill> <slack> <keys> <vals> <iterators>\n");
+   fprintf(stderr, "usage: ht replay <behaviours> <report> <hash> <prefill> <slack> [progress [class [alias]]] | ht random <report> <trace> <seed> <runs> <ops> <class> <hash> <prefill> <slack> <keys> <vals> <iterators> [alias]\n");
    return 2;
 }
